@@ -113,6 +113,16 @@ def gen_session(rnd, maxlen=60):
         s.append((rnd.choice(["go ponder wtime 1000 btime 1000", "go ponder depth 4", "go ponder movetime 50", "go infinite"]), 0))
         s.append((rnd.choice(["isready", "isready", "setoption name Hash value 4"]), rnd.choice([0.02, 0.1])))
         s.append((rnd.choice(["ponderhit", "stop"]), rnd.choice([0.0, 0.05])))
+    if rnd.random() < 0.2:
+        # a limited search of some kind, answered by itself, then an unlimited one that is left alone for a while: no limit of the
+        # earlier 'go' may end the later search
+        s.append(("position " + rnd.choice(FENS), 0))
+        s.append((rnd.choice(["go nodes 500", "go nodes 3000", "go depth 2", "go movetime 10", "go mate 1", "go wtime 20 btime 20", "go depth 3 nodes 800"]), 0))
+        s.append(("isready", 0.25))
+        s.append(("position " + rnd.choice(FENS), 0))
+        s.append((rnd.choice(["go infinite", "go infinite", "go ponder", "go ponder wtime 1000 btime 1000"]), 0))
+        s.append((rnd.choice(["isready", "setoption name Hash value 4"]), 0.3))
+        s.append(("stop", rnd.choice([0.0, 0.05])))
     for _ in range(n):
         r = rnd.random()
         dly = rnd.choice([0, 0, 0, 0.002, 0.01, 0.03])
